@@ -120,7 +120,7 @@ def selectOne (O : Oracles) (q : SelectStmt) (seen : List (List Value)) (env : E
   let valid ← (match q.filter with
     | some f => do
       let v ← eval O env f
-      pure v.truthy
+      condHolds v
     | none => pure true : Outcome Bool)
   if !valid then pure (seen, none)
   else
@@ -444,7 +444,7 @@ def aggUpdateRow (O : Oracles) (q : AggStmt) (st : AggState) (env : Env) : Outco
   let valid ← (match q.filter with
     | some f => do
       let v ← eval O env f
-      pure v.truthy
+      condHolds v
     | none => pure true : Outcome Bool)
   if !valid then pure (st, false)
   else do
@@ -530,7 +530,7 @@ def acceptGroup (O : Oracles) (q : AggStmt) (having : Expr) (key : List Value) (
   let gkeys := (keyMapping q).filterMap (fun (c, i) => (key[i]?).map (fun v => (c, v)))
   let gvals := (enumFrom 0 q.havingAggs).map (fun (j, (id, k)) => (id, (alGet subs (q.items.length + j)).getD (emptyGroupValue k)))
   let v ← eval O { groupKeys := gkeys.reverse, groupValues := gvals } having
-  pure v.truthy
+  condHolds v
 
 /-- rows of the result table in group order: HAVING, then per-table DISTINCT -/
 def resultRows (O : Oracles) (q : AggStmt) : List (List Value × List (Nat × Value)) → List (List Value) → Outcome (List (List Value))
